@@ -67,10 +67,12 @@ def thresholds(tier):
   return THOROUGH_THRESHOLDS
 
 
-THOROUGH_THRESHOLDS = {"type_pairs": 150000, "products_checked": 6000000, "brute_force_type_pairs": 7000,
-                       "brute_force_products": 650000, "contract_evals": 150000, "conversions_checked": 1000,
-                       "impl_kind_checked": 150000, "zero_checked": 40000, "float_pairs": 1000,
-                       "random_wide_pairs": 10000, "distinct_nontrivial": 80000}
+# thorough, seed 0 measured: 291k type pairs, 18.8M products, 40k brute-forced type pairs with 11.4M
+# products, 295k contract evaluations (before the random pairs were raised from 40k to 120k)
+THOROUGH_THRESHOLDS = {"type_pairs": 100000, "products_checked": 6000000, "brute_force_type_pairs": 13000,
+                       "brute_force_products": 3700000, "contract_evals": 100000, "conversions_checked": 1000,
+                       "impl_kind_checked": 100000, "zero_checked": 80000, "float_pairs": 1300,
+                       "random_wide_pairs": 40000, "distinct_nontrivial": 75000}
 
 
 # ------------------------------------------------------------ workload
@@ -82,7 +84,7 @@ def cases(tier, seed):
     for xk in qt.KINDS:
       out.append({"w": w, "xk": xk})
   lo, hi = (9, 16) if tier == "quick" else (17, 24)
-  npairs = 6000 if tier == "quick" else 40000
+  npairs = 6000 if tier == "quick" else 120000
   small_hi = MAX_BITS[tier]
   chunk = []
   for _ in range(npairs):
